@@ -226,7 +226,11 @@ MkRepChis(bc, kinds, chis, cons, form, v, cplx) ==
 MkRep(bc, n, cp, kp, cons, fp, v, cplx) == MkRepChis(bc, KindPat(kp, n), ChiPat(bc, n, cp), cons, FormPat(fp, n), v, cplx)
 
 CaseNo(bcn, n, cp, kp, cn, fp, v, cx) == ((((((bcn * 7 + n) * 4 + cp) * 7 + kp) * 3 + cn) * 8 + fp) * 3 + v) * 16 + cx
-Keep(c) == ((((c % 9973) * 7919 + (c \div 9973) * 31 + (Seed % 1000) * 10477 + 12345) % 1000003) % Sample) = 0
+Keep(c) == LET a == c % 9973
+               b == c \div 9973
+               s == Seed % 1000
+               x == (a * a + 17 * a * (b + 1) + 7919 * a + 104729 * b + 10477 * s + s * a + 12345) % 1000003
+           IN x % Sample = 0
 BcNum(bc) == CASE bc = "finite" -> 0 [] bc = "segment" -> 1 [] OTHER -> 2
 ConsOf(cn) == CASE cn = 0 -> "none" [] cn = 1 -> "U1" [] OTHER -> "Z2"
 
